@@ -2,7 +2,7 @@
    BasicContiguousVector (vector.hpp:127-151, 291-297, 471-538) on top of Vector.v,
    scripts and observations.  Definitions only. *)
 From Coq Require Import ZArith List Bool.
-From Cntgs Require Import Base Layout Mem Vector Proxy.
+From Cntgs Require Import Base Layout Mem Vector Proxy Elem.
 Import ListNotations.
 Local Open Scope Z_scope.
 
@@ -38,6 +38,20 @@ Inductive op :=
 | OpWrite (s : nat) (i : Z) (k : nat) (o : Z) (bs : list Z)     (* object o of field k of s[i] := bytes *)
 | OpAlgo (kind : nat) (s : nat) (a b c : Z) (s2 : nat)          (* 0 rotate, 1 reverse, 2 swap_ranges *)
 | OpIter (s : nat) (i j : Z)                                    (* iterator expressions *)
+| OpEFromRef (e s : nat) (i : Z) (mv : bool) (aid : Z)      (* value_type{vec[i]} (copy / move), allocator aid *)
+| OpECopy (d s : nat)
+| OpECopyAlloc (d s : nat) (aid : Z)
+| OpEMove (d s : nat)
+| OpEMoveAlloc (d s : nat) (aid : Z)
+| OpECopyAssign (d s : nat)
+| OpEMoveAssign (d s : nat)
+| OpESwap (a b : nat)
+| OpEAssignRef (e s : nat) (i : Z) (mv : bool)              (* element = vec[i] *)
+| OpRefAssignE (s : nat) (i : Z) (e : nat) (mv : bool)      (* vec[i] = element *)
+| OpEDestroy (e : nat)
+| OpEObserve (e : nat)
+| OpECmpE (a b : nat)
+| OpECmpR (e s : nat) (i : Z)                               (* element vs reference, both ways round *)
 | OpCmpVec (a b : nat)                 (* all six operators between two vectors *)
 | OpCmpRef (a : nat) (i : Z) (b : nat) (j : Z)   (* ... between element references a[i], b[j] *)
 | OpObserve (s : nat).
@@ -52,6 +66,9 @@ Inductive obs :=
 | ORes (r : Z)                                     (* returned index / boolean *)
 | OCmp (r : list bool)                             (* == != < <= > >= *)
 | OIter (r : list Z)
+| OElem (e : nat) (aid : Z) (bid : nat) (units : Z) (fields : list (Z * list (list Z)))
+| OENull (e : nat)
+| OEGone (e : nat)
 | ONull (s : nat) (size : Z)                       (* vector without memory: size() only *)
 | OVec (s : nat) (size cap consumption aid : Z) (bid : nat) (dbeg dend : Z) (fixed : list Z)
        (elems : list oelem)
@@ -59,6 +76,7 @@ Inductive obs :=
 
 Record world := {
   w_vecs : list (option vec);
+  w_elems : list (option elem);
   w_nb : nat;          (* next block id *)
   w_junk : Z;
   w_out : list obs     (* reversed *)
@@ -69,12 +87,29 @@ Definition getv (w : world) (s : nat) : vec :=
 Definition hasv (w : world) (s : nat) : bool :=
   match nth s (w_vecs w) None with Some _ => true | None => false end.
 Definition setv (w : world) (s : nat) (v : option vec) (evs : list ev) (nb : nat) : world :=
-  {| w_vecs := upd s v (w_vecs w); w_nb := nb; w_junk := w_junk w;
+  {| w_vecs := upd s v (w_vecs w); w_elems := w_elems w; w_nb := nb; w_junk := w_junk w;
      w_out := rev (map OEv evs) ++ w_out w |}.
 Definition emit (w : world) (o : list obs) : world :=
-  {| w_vecs := w_vecs w; w_nb := w_nb w; w_junk := w_junk w; w_out := rev o ++ w_out w |}.
+  {| w_vecs := w_vecs w; w_elems := w_elems w; w_nb := w_nb w; w_junk := w_junk w; w_out := rev o ++ w_out w |}.
 Definition set_junk (w : world) (b : Z) : world :=
-  {| w_vecs := w_vecs w; w_nb := w_nb w; w_junk := b; w_out := w_out w |}.
+  {| w_vecs := w_vecs w; w_elems := w_elems w; w_nb := w_nb w; w_junk := b; w_out := w_out w |}.
+
+Definition elem0 : elem := {| e_bid := None; e_units := 0; e_aid := 0; e_mem := mfill 0; e_fl := [] |}.
+Definition gete (w : world) (s : nat) : elem :=
+  match nth s (w_elems w) None with Some e => e | None => elem0 end.
+Definition sete (w : world) (s : nat) (e : option elem) (evs : list ev) (nb : nat) : world :=
+  {| w_vecs := w_vecs w; w_elems := upd s e (w_elems w); w_nb := nb; w_junk := w_junk w;
+     w_out := rev (map OEv evs) ++ w_out w |}.
+Definition obs_el (L : list param) (s : nat) (w : world) : obs :=
+  match nth s (w_elems w) None with
+  | None => OEGone s
+  | Some e =>
+      match e_bid e with
+      | None => OENull s
+      | Some b => OElem s (e_aid e) b (e_units e)
+                    (map (fun pa => (fst (snd pa), read_objs (e_mem e) (fst pa) (snd pa))) (combine L (e_fl e)))
+      end
+  end.
 
 Definition obs_elem (L : list param) (v : vec) (i : Z) : oelem :=
   let a := eaddr L v i in
@@ -308,13 +343,72 @@ Definition step (K : akind) (L : list param) (w : world) (o : op) : world :=
           emit w1 (obs_vec L s w1 :: (if same then [] else [obs_vec L s2 w1]))
       end
   | OpIter s i j => emit w [OIter (iter_battery i j (vsize L (getv w s)))]
+  | OpEFromRef e s i mv aid =>
+      let v := getv w s in
+      let '(ms, el, evs) := elem_from_ref mv L (v_mem v) (vfl L v i) (bidn (v_bid v)) aid junk nb in
+      let w1 := sete (setv w s (Some (set_mem v ms)) [] nb) e (Some el) evs (S nb) in
+      emit w1 [obs_el L e w1; obs_vec L s w1]
+  | OpECopy d s =>
+      let '(el, evs) := elem_copy L (gete w s) (soccc K (e_aid (gete w s))) junk nb in
+      let w1 := sete w d (Some el) evs (S nb) in emit w1 [obs_el L d w1; obs_el L s w1]
+  | OpECopyAlloc d s aid =>
+      let '(el, evs) := elem_copy_alloc L (gete w s) aid junk nb in
+      let w1 := sete w d (Some el) evs (S nb) in emit w1 [obs_el L d w1; obs_el L s w1]
+  | OpEMove d s =>
+      let e := gete w s in
+      let w1 := sete (sete w s (Some (elem_moved_from e)) [] nb) d (Some e) [] nb in
+      emit w1 [obs_el L d w1; obs_el L s w1]
+  | OpEMoveAlloc d s aid =>
+      let '(el, src, evs, fresh) := elem_move_alloc (always_eq K) L (gete w s) aid junk nb in
+      let w1 := sete (sete w s (Some src) [] nb) d (Some el) evs (if fresh then S nb else nb) in
+      emit w1 [obs_el L d w1; obs_el L s w1]
+  | OpECopyAssign d s =>
+      if Nat.eqb d s then emit w [obs_el L d w]
+      else
+        let '(el, evs, nb') := elem_copy_assign (pocca K) (always_eq K) L (gete w d) (gete w s) junk nb in
+        let w1 := sete w d (Some el) evs nb' in emit w1 [obs_el L d w1; obs_el L s w1]
+  | OpEMoveAssign d s =>
+      if Nat.eqb d s then emit w [obs_el L d w]
+      else
+        let '(el, src, evs, nb') := elem_move_assign (pocma K) (always_eq K) L (gete w d) (gete w s) junk nb in
+        let w1 := sete (sete w s (Some src) [] nb) d (Some el) evs nb' in
+        emit w1 [obs_el L d w1; obs_el L s w1]
+  | OpESwap a b =>
+      if Nat.eqb a b then emit w [obs_el L a w]
+      else
+        let '(ea, eb) := elem_swap (pocs K) (gete w a) (gete w b) in
+        let w1 := sete (sete w a (Some ea) [] nb) b (Some eb) [] nb in
+        emit w1 [obs_el L a w1; obs_el L b w1]
+  | OpEAssignRef e s i mv =>
+      let v := getv w s in let el := gete w e in
+      let '(ms, md, evs) := assign_fl mv L false (v_mem v) (vfl L v i) (bidn (v_bid v))
+                                      (e_mem el) (e_fl el) (bidn (e_bid el)) in
+      let w1 := sete (setv w s (Some (set_mem v ms)) [] nb) e (Some (set_emem el md)) evs nb in
+      emit w1 [obs_el L e w1; obs_vec L s w1]
+  | OpRefAssignE s i e mv =>
+      let v := getv w s in let el := gete w e in
+      let '(ms, md, evs) := assign_fl mv L false (e_mem el) (e_fl el) (bidn (e_bid el))
+                                      (v_mem v) (vfl L v i) (bidn (v_bid v)) in
+      let w1 := sete (setv w s (Some (set_mem v md)) evs nb) e (Some (set_emem el ms)) [] nb in
+      emit w1 [obs_vec L s w1; obs_el L e w1]
+  | OpEDestroy e =>
+      let evs := elem_destroy L (gete w e) in
+      let w1 := sete w e None evs nb in emit w1 [obs_el L e w1]
+  | OpEObserve e => emit w [obs_el L e w]
+  | OpECmpE a b =>
+      let x := gete w a in let y := gete w b in
+      emit w [OCmp (cmp_fl L (e_mem x) (e_fl x) (e_mem y) (e_fl y))]
+  | OpECmpR e s i =>
+      let x := gete w e in let v := getv w s in
+      emit w [OCmp (cmp_fl L (e_mem x) (e_fl x) (v_mem v) (vfl L v i));
+              OCmp (cmp_fl L (v_mem v) (vfl L v i) (e_mem x) (e_fl x))]
   | OpCmpVec a b => emit w [OCmp (cmp_vecs L (getv w a) (getv w b))]
   | OpCmpRef a i b j => emit w [OCmp (cmp_refs L (getv w a) i (getv w b) j)]
   | OpObserve s => emit w [obs_vec L s w]
   end.
 
 Definition world0 : world :=
-  {| w_vecs := repeat None 4; w_nb := O; w_junk := 170; w_out := [] |}.
+  {| w_vecs := repeat None 4; w_elems := repeat None 4; w_nb := O; w_junk := 170; w_out := [] |}.
 
 Fixpoint run_from (K : akind) (L : list param) (w : world) (ops : list op) (n : nat) : world :=
   match ops with
